@@ -3,7 +3,7 @@
    any schedule = list of session ids).  Property theorems only. *)
 From Coq Require Import ZArith List Bool.
 Import ListNotations.
-Require Import PonyV.Model.C20Opt PonyV.Proofs.C20OptProofs PonyV.Proofs.C20Serial.
+Require Import PonyV.Model.C20Opt PonyV.Model.C20Life PonyV.Proofs.C20OptProofs PonyV.Proofs.C20Serial PonyV.Proofs.C20LifeProofs.
 
 (* The WHERE clause of the UPDATE (Entity._construct_optimistic_criteria_): `col = value read` (IS NULL for None)
    for exactly the attributes with a read bit whose optimistic option (own, else the converter's) is on. *)
@@ -66,6 +66,37 @@ Theorem C20_serial : forall k sch d pr sched s rest,
 Proof. exact commit_is_serial. Qed.
 Print Assumptions C20_serial.
 
+(* ---- one session with several transactions (model Life): explicit commit() in the middle, get_for_update, created objects;
+   other sessions commit changes of the row (LExt) whenever this session does not hold the write lock. ---- *)
+
+(* Lifetime of the exemption from optimistic checks: for every history, the object is in cache.for_update only while it is
+   still uninserted (nobody else can see the row) or the session is inside the transaction that holds the write lock.
+   commit() ends both, and with them the exemption. *)
+Theorem C20_forupdate_lifetime : forall k sch d evs,
+  let s := lrun k sch (linit d) evs in
+  lforupd s = true -> lcreated s = true \/ ltxn s <> None.
+Proof. exact forupd_lifetime. Qed.
+Print Assumptions C20_forupdate_lifetime.
+
+(* No lost update across transactions of one session: in every reachable state, an UPDATE that would be applied now -
+   because its optimistic criteria match OR because the object is exempt - finds every attribute that carries a read bit
+   and has optimistic checking on equal to the value the session holds for it (read bits and dbvals survive commit()). *)
+Theorem C20_multi_transaction : forall k sch d evs,
+  let s := lrun k sch (linit d) evs in
+  update_applies k sch s = true ->
+  forall a, (a < k)%nat -> rbits (lx s) a = true -> a_opt (sch a) = true -> view s a = dbvals (lx s) a.
+Proof. exact applied_update_valid. Qed.
+Print Assumptions C20_multi_transaction.
+
+(* the flush applies its UPDATE exactly in that case; otherwise it ends the session with OptimisticCheckError, rolled back *)
+Theorem C20_flush_applies : forall k sch s, lcreated s = false -> set_list k (lx s) <> [] ->
+  snd (l_flush k sch s) = update_applies k sch s
+  /\ (snd (l_flush k sch s) = true -> forall a, view (fst (l_flush k sch s)) a = apply_sets (view s) (set_list k (lx s)) a)
+  /\ (snd (l_flush k sch s) = false -> ldb (fst (l_flush k sch s)) = ldb s /\ ltxn (fst (l_flush k sch s)) = None
+                                        /\ st (lx (fst (l_flush k sch s))) = Failed E_OPT).
+Proof. exact flush_applies. Qed.
+Print Assumptions C20_flush_applies.
+
 (* Non-vacuity: the classic lost update.  Two sessions run `obj.a = obj.a + 1; commit` on a = 10, interleaved
    read / read / write+commit / write+commit: the first commits (a = 11), the second ends in OptimisticCheckError. *)
 Definition sch2 : list attr := [ {| a_decl := None; a_conv := true; a_vol := false |} ].
@@ -80,4 +111,15 @@ Proof. vm_compute. reflexivity. Qed.
 (* serial_row on the same programs: each increment run alone from the row left by the previous commit *)
 Example C20_serial_nonvacuous :
   map (serial_row 1 (schema_of sch2) (row_of [Some 10%Z]) [Read 0; Write 0 (EPlus 0 1)]) [0%nat] = [Some 11%Z].
+Proof. vm_compute. reflexivity. Qed.
+
+(* Life: lock the row, read a = 10, commit(); another session commits a := 70; a := a - 5, commit(): OptimisticCheckError,
+   the other session's value stays.  Inside the first transaction the same update is applied without criteria. *)
+Example C20_life_nonvacuous :
+  loutcome 1 sch2 (Some [Some 10%Z]) [LForUpd; LRead 0; LCommit; LExt 0 (Some 70%Z); LWrite 0 (EPlus 0 (-5)); LCommit]
+  = (Some [Some 70%Z], false, [LObs 0 (Some 10%Z); LObs 0 (Some 10%Z); LUpdate [(0%nat, Some 5%Z)] [(0%nat, Some 10%Z)] false; LFail 1]).
+Proof. vm_compute. reflexivity. Qed.
+Example C20_life_nonvacuous_locked :
+  loutcome 1 sch2 (Some [Some 10%Z]) [LForUpd; LRead 0; LExt 0 (Some 70%Z); LWrite 0 (EPlus 0 (-5)); LCommit]
+  = (Some [Some 5%Z], false, [LObs 0 (Some 10%Z); LObs 0 (Some 10%Z); LUpdate [(0%nat, Some 5%Z)] [] true]).
 Proof. vm_compute. reflexivity. Qed.
